@@ -1020,3 +1020,464 @@ pub proof fn theorem_c04(p: Seq<char>, name: Seq<char>, compiled: bool, r: bool)
         theorem_expansion_shape(p);
     }
 }
+// ---- net brace depth after the first k characters
+pub open spec fn dep(s: Seq<char>, k: int) -> int decreases k {
+    if k <= 0 || k > s.len() { 0 } else { dep(s, k - 1) + bdelta(s[k - 1]) }
+}
+pub proof fn lemma_dep_sub(s: Seq<char>, a: int, b: int, k: int)
+    requires 0 <= a, 0 <= k, a + k <= b <= s.len()
+    ensures dep(s.subrange(a, b), k) == dep(s, a + k) - dep(s, a)
+    decreases k
+{
+    if k > 0 {
+        lemma_dep_sub(s, a, b, k - 1);
+        assert(s.subrange(a, b)[k - 1] == s[a + k - 1]);
+    }
+}
+/// scan (pattern_spec.rs) in terms of the depth profile
+pub proof fn lemma_scan_char(s: Seq<char>, k: int, d: int)
+    requires 0 <= k <= s.len(), d >= 0
+    ensures
+        scan(s, k, d) >= 0 <==> (forall|x: int| k <= x <= s.len() ==> d + #[trigger] dep(s, x) - dep(s, k) >= 0),
+        scan(s, k, d) >= 0 ==> scan(s, k, d) == d + dep(s, s.len() as int) - dep(s, k),
+        scan(s, k, d) >= -1,
+    decreases s.len() - k
+{
+    if k < s.len() {
+        assert(dep(s, k + 1) == dep(s, k) + bdelta(s[k]));
+        if s[k] == '}' && d <= 0 {
+            assert(d + dep(s, k + 1) - dep(s, k) < 0);
+        } else {
+            let d2 = d + bdelta(s[k]);
+            lemma_scan_char(s, k + 1, d2);
+            assert(scan(s, k, d) == scan(s, k + 1, d2));
+            if scan(s, k, d) >= 0 {
+                assert forall|x: int| k <= x <= s.len() implies d + #[trigger] dep(s, x) - dep(s, k) >= 0 by {
+                    if x > k { assert(d2 + dep(s, x) - dep(s, k + 1) >= 0); }
+                }
+            }
+            if forall|x: int| k <= x <= s.len() ==> d + #[trigger] dep(s, x) - dep(s, k) >= 0 {
+                assert forall|x: int| k + 1 <= x <= s.len() implies d2 + #[trigger] dep(s, x) - dep(s, k + 1) >= 0 by {
+                    assert(d + dep(s, x) - dep(s, k) >= 0);
+                }
+            }
+        }
+    }
+}
+pub proof fn lemma_balanced_char(s: Seq<char>)
+    ensures balanced(s) <==> ((forall|x: int| 0 <= x <= s.len() ==> #[trigger] dep(s, x) >= 0) && dep(s, s.len() as int) == 0)
+{
+    lemma_scan_char(s, 0, 0);
+}
+
+/// close mode in terms of the depth profile: the first '}' reached at relative depth 1; before it the depth stays >= 1
+pub proof fn lemma_seek_close_char(s: Seq<char>, k: int, d: int)
+    requires 0 <= k <= s.len(), d >= 1
+    ensures ({
+        let j = seek(s, k, d, true);
+        &&& (j >= 0 ==> k <= j < s.len() && s[j] == '}' && d + dep(s, j) - dep(s, k) == 1
+                && (forall|x: int| k <= x <= j ==> d + #[trigger] dep(s, x) - dep(s, k) >= 1))
+        &&& (j < 0 ==> (forall|x: int| k <= x <= s.len() ==> d + #[trigger] dep(s, x) - dep(s, k) >= 1))
+    })
+    decreases s.len() - k
+{
+    if k < s.len() {
+        assert(dep(s, k + 1) == dep(s, k) + bdelta(s[k]));
+        if s[k] == '}' && d == 1 {
+        } else {
+            let d2 = d + bdelta(s[k]);
+            lemma_seek_close_char(s, k + 1, d2);
+            let j = seek(s, k, d, true);
+            assert(j == seek(s, k + 1, d2, true));
+            if j >= 0 {
+                assert forall|x: int| k <= x <= j implies d + #[trigger] dep(s, x) - dep(s, k) >= 1 by {
+                    if x > k { assert(d2 + dep(s, x) - dep(s, k + 1) >= 1); }
+                }
+            } else {
+                assert forall|x: int| k <= x <= s.len() implies d + #[trigger] dep(s, x) - dep(s, k) >= 1 by {
+                    if x > k { assert(d2 + dep(s, x) - dep(s, k + 1) >= 1); }
+                }
+            }
+        }
+    }
+}
+/// comma mode: the first ',' at relative depth 0, the depth not having dropped below 0 before
+pub proof fn lemma_seek_comma_char(s: Seq<char>, k: int, d: int)
+    requires 0 <= k <= s.len(), d >= 0
+    ensures ({
+        let j = seek(s, k, d, false);
+        j >= 0 ==> k <= j < s.len() && s[j] == ',' && d + dep(s, j) - dep(s, k) == 0
+    })
+    decreases s.len() - k
+{
+    if k < s.len() {
+        assert(dep(s, k + 1) == dep(s, k) + bdelta(s[k]));
+        if s[k] == ',' && d == 0 {
+        } else {
+            let d2 = d + bdelta(s[k]);
+            if d2 >= 0 { lemma_seek_comma_char(s, k + 1, d2); }
+            else { assert(seek(s, k + 1, d2, false) == -1); }
+        }
+    }
+}
+/// the first group of a balanced text: it closes, its interior is balanced, so is the rest, and nothing but plain text precedes it
+pub proof fn lemma_balanced_struct(p: Seq<char>)
+    requires balanced(p), first_index_of(p, '{') >= 0
+    ensures ({
+        let i = first_index_of(p, '{');
+        let j = seek(p, i + 1, 1, true);
+        &&& 0 <= i < j < p.len()
+        &&& brace_free(p.take(i))
+        &&& balanced(p.subrange(i + 1, j))
+        &&& balanced(p.skip(j + 1))
+    })
+{
+    let i = first_index_of(p, '{');
+    lemma_first_index_of(p, '{');
+    lemma_balanced_char(p);
+    let n = p.len() as int;
+    // no '{' before i: the depth cannot rise, and it cannot fall
+    assert forall|x: int| 0 <= x <= i implies dep(p, x) == 0 by { lemma_dep_flat(p, x); }
+    assert forall|x: int| 0 <= x < i implies p.take(i)[x] != '{' && p.take(i)[x] != '}' by {
+        assert(dep(p, x + 1) == dep(p, x) + bdelta(p[x]));
+        assert(dep(p, x + 1) == 0 && dep(p, x) == 0);
+    }
+    assert(dep(p, i + 1) == dep(p, i) + bdelta(p[i]));
+    lemma_seek_close_char(p, i + 1, 1);
+    let j = seek(p, i + 1, 1, true);
+    if j < 0 { assert(1 + dep(p, n) - dep(p, i + 1) >= 1); }
+    assert(dep(p, j + 1) == dep(p, j) + bdelta(p[j]));
+    let inner = p.subrange(i + 1, j);
+    lemma_balanced_char(inner);
+    assert forall|x: int| 0 <= x <= inner.len() implies #[trigger] dep(inner, x) >= 0 by {
+        lemma_dep_sub(p, i + 1, j, x);
+        assert(1 + dep(p, i + 1 + x) - dep(p, i + 1) >= 1);
+    }
+    lemma_dep_sub(p, i + 1, j, j - i - 1);
+    let rest = p.skip(j + 1);
+    assert(rest =~= p.subrange(j + 1, n));
+    lemma_balanced_char(rest);
+    assert forall|x: int| 0 <= x <= rest.len() implies #[trigger] dep(rest, x) >= 0 by {
+        lemma_dep_sub(p, j + 1, n, x);
+        assert(dep(p, j + 1 + x) >= 0);
+    }
+    lemma_dep_sub(p, j + 1, n, n - j - 1);
+}
+/// before the first '{' the depth is <= 0 everywhere; with the lower bound of a balanced text it is 0
+pub proof fn lemma_dep_flat(p: Seq<char>, x: int)
+    requires 0 <= x <= first_index_of(p, '{') || (first_index_of(p, '{') < 0 && 0 <= x <= p.len())
+    ensures dep(p, x) <= 0
+    decreases x
+{
+    lemma_first_index_of(p, '{');
+    if x > 0 { lemma_dep_flat(p, x - 1); assert(p[x - 1] != '{'); }
+}
+
+/// the alternatives of a balanced interior are balanced
+pub proof fn lemma_alts_balanced(s: Seq<char>)
+    requires balanced(s)
+    ensures forall|k: int| 0 <= k < split_top(s).len() ==> balanced(#[trigger] split_top(s)[k])
+    decreases s.len()
+{
+    let c = seek(s, 0, 0, false);
+    let n = s.len() as int;
+    if !(c < 0 || c >= n) {
+        lemma_seek_comma_char(s, 0, 0);
+        lemma_balanced_char(s);
+        let a = s.take(c);
+        let t = s.skip(c + 1);
+        assert(a =~= s.subrange(0, c));
+        assert(t =~= s.subrange(c + 1, n));
+        lemma_balanced_char(a);
+        lemma_balanced_char(t);
+        assert(dep(s, c + 1) == dep(s, c) + bdelta(s[c]));
+        assert forall|x: int| 0 <= x <= a.len() implies #[trigger] dep(a, x) >= 0 by { lemma_dep_sub(s, 0, c, x); assert(dep(s, x) >= 0); }
+        lemma_dep_sub(s, 0, c, c);
+        assert forall|x: int| 0 <= x <= t.len() implies #[trigger] dep(t, x) >= 0 by { lemma_dep_sub(s, c + 1, n, x); assert(dep(s, c + 1 + x) >= 0); }
+        lemma_dep_sub(s, c + 1, n, n - c - 1);
+        lemma_alts_balanced(t);
+        let st = split_top(t);
+        assert forall|k: int| 0 <= k < split_top(s).len() implies balanced(#[trigger] split_top(s)[k]) by {
+            if k > 0 { assert(split_top(s)[k] == st[k - 1]); }
+        }
+    }
+}
+/// an alternative has no more '{' than the interior it is cut from
+pub proof fn lemma_alts_count(s: Seq<char>)
+    ensures forall|k: int| 0 <= k < split_top(s).len() ==> count_c(#[trigger] split_top(s)[k], '{') <= count_c(s, '{')
+    decreases s.len()
+{
+    let c = seek(s, 0, 0, false);
+    if !(c < 0 || c >= s.len()) {
+        let a = s.take(c);
+        let t = s.skip(c + 1);
+        assert(s =~= a + seq![s[c]] + t);
+        lemma_count_concat(a, seq![s[c]], '{');
+        lemma_count_concat(a + seq![s[c]], t, '{');
+        lemma_alts_count(t);
+        let st = split_top(t);
+        assert forall|k: int| 0 <= k < split_top(s).len() implies count_c(#[trigger] split_top(s)[k], '{') <= count_c(s, '{') by {
+            if k > 0 { assert(split_top(s)[k] == st[k - 1]); }
+        }
+    }
+}
+/// an event found inside x is the event found in x + y
+pub proof fn lemma_seek_prefix(x: Seq<char>, y: Seq<char>, k: int, d: int, close: bool)
+    requires 0 <= k, seek(x, k, d, close) >= 0
+    ensures seek(x + y, k, d, close) == seek(x, k, d, close)
+    decreases x.len() - k
+{
+    if k < x.len() {
+        assert((x + y)[k] == x[k]);
+        if !(!close && d < 0) && !(close && x[k] == '}' && d == 1) && !(!close && x[k] == ',' && d == 0) {
+            lemma_seek_prefix(x, y, k + 1, d + bdelta(x[k]), close);
+        }
+    }
+}
+pub proof fn lemma_balanced_concat(x: Seq<char>, y: Seq<char>)
+    requires balanced(x), balanced(y)
+    ensures balanced(x + y)
+{
+    lemma_scan_concat(x, y, 0, 0);
+}
+pub proof fn lemma_balanced_plain(x: Seq<char>)
+    requires brace_free(x)
+    ensures balanced(x)
+{
+    lemma_scan_plain(x, 0, 0);
+}
+
+// ---- the expansion of x + c for a balanced x: an expansion of x followed by an expansion of c
+pub open spec fn wit2(m: int) -> bool { true }
+pub open spec fn cat_rhs(x: Seq<char>, c: Seq<char>, e: Seq<char>) -> bool {
+    exists|m: int| #[trigger] wit2(m) && 0 <= m <= e.len() && dhas(x, e.take(m)) && dhas(c, e.skip(m))
+}
+pub proof fn lemma_cat_shape(x: Seq<char>, c: Seq<char>, i: int, j: int)
+    requires 0 <= i < j < x.len()
+    ensures (x + c).take(i) == x.take(i), (x + c).subrange(i + 1, j) == x.subrange(i + 1, j), (x + c).skip(j + 1) == x.skip(j + 1) + c
+{
+    let w = x + c;
+    assert(w.take(i) =~= x.take(i));
+    assert(w.subrange(i + 1, j) =~= x.subrange(i + 1, j));
+    assert(w.skip(j + 1) =~= x.skip(j + 1) + c);
+}
+pub proof fn lemma_take_shapes(e: Seq<char>, i: int, m1: int, m2: int)
+    requires 0 <= i <= m1, 0 <= m2, m1 + m2 <= e.len()
+    ensures ({
+        let m = m1 + m2;
+        &&& e.take(m).take(i) == e.take(i)
+        &&& e.take(m).subrange(i, m1) == e.subrange(i, m1)
+        &&& e.take(m).skip(m1) == e.skip(m1).take(m2)
+        &&& e.skip(m) == e.skip(m1).skip(m2)
+    })
+{
+    let m = m1 + m2;
+    assert(e.take(m).take(i) =~= e.take(i));
+    assert(e.take(m).subrange(i, m1) =~= e.subrange(i, m1));
+    assert(e.take(m).skip(m1) =~= e.skip(m1).take(m2));
+    assert(e.skip(m) =~= e.skip(m1).skip(m2));
+}
+pub proof fn lemma_dhas_concat_fwd(x: Seq<char>, c: Seq<char>, e: Seq<char>)
+    requires balanced(x), dhas(x + c, e)
+    ensures cat_rhs(x, c, e)
+    decreases x.len()
+{
+    let i = first_index_of(x, '{');
+    lemma_first_index_of(x, '{');
+    let w = x + c;
+    if i < 0 {
+        lemma_dhas_prefix(x, c, e);
+        lemma_dhas_plain(x, e.take(x.len() as int));
+        assert(wit2(x.len() as int));
+    } else {
+        lemma_balanced_struct(x);
+        let j = seek(x, i + 1, 1, true);
+        lemma_first_index_concat(x, c, '{');
+        lemma_seek_prefix(x, c, i + 1, 1, true);
+        lemma_cat_shape(x, c, i, j);
+        lemma_dhas_unfold(w, e);
+        let (k, m1) = choose|k: int, m: int| #[trigger] wit(k, m) && dstep(w, e, i, j, k, m);
+        let r = x.skip(j + 1);
+        lemma_dhas_concat_fwd(r, c, e.skip(m1));
+        let m2 = choose|m: int| #[trigger] wit2(m) && 0 <= m <= e.skip(m1).len() && dhas(r, e.skip(m1).take(m)) && dhas(c, e.skip(m1).skip(m));
+        let m = m1 + m2;
+        lemma_take_shapes(e, i, m1, m2);
+        lemma_dhas_unfold(x, e.take(m));
+        lemma_alt_shorter(x, i, j, k);
+        assert(wit(k, m1) && dstep(x, e.take(m), i, j, k, m1));
+        assert(wit2(m));
+    }
+}
+pub proof fn lemma_dhas_concat_bwd(x: Seq<char>, c: Seq<char>, e: Seq<char>, m: int)
+    requires balanced(x), 0 <= m <= e.len(), dhas(x, e.take(m)), dhas(c, e.skip(m))
+    ensures dhas(x + c, e)
+    decreases x.len()
+{
+    let i = first_index_of(x, '{');
+    lemma_first_index_of(x, '{');
+    let w = x + c;
+    if i < 0 {
+        lemma_dhas_plain(x, e.take(m));
+        lemma_dhas_prefix(x, c, e);
+    } else {
+        lemma_balanced_struct(x);
+        let j = seek(x, i + 1, 1, true);
+        lemma_first_index_concat(x, c, '{');
+        lemma_seek_prefix(x, c, i + 1, 1, true);
+        lemma_cat_shape(x, c, i, j);
+        lemma_dhas_unfold(x, e.take(m));
+        let (k, m1) = choose|k: int, mm: int| #[trigger] wit(k, mm) && dstep(x, e.take(m), i, j, k, mm);
+        let m2 = m - m1;
+        lemma_take_shapes(e, i, m1, m2);
+        let r = x.skip(j + 1);
+        lemma_dhas_concat_bwd(r, c, e.skip(m1), m2);
+        lemma_dhas_unfold(w, e);
+        lemma_alt_shorter(w, i, j, k);
+        assert(wit(k, m1) && dstep(w, e, i, j, k, m1));
+    }
+}
+
+// ---- the operational csh expansion, left to right: substitute one alternative of the FIRST group, expand the result further
+pub open spec fn sub_alt(p: Seq<char>, i: int, j: int, k: int) -> Seq<char> { p.take(i) + split_top(p.subrange(i + 1, j))[k] + p.skip(j + 1) }
+pub open spec fn wit1(k: int) -> bool { true }
+pub open spec fn csh_has(p: Seq<char>, e: Seq<char>) -> bool decreases count_c(p, '{') {
+    let i = first_index_of(p, '{');
+    if i < 0 || i >= p.len() { p == e }
+    else {
+        let j = seek(p, i + 1, 1, true);
+        if j < 0 || j >= p.len() { false }
+        else {
+            exists|k: int| #[trigger] wit1(k) && 0 <= k < split_top(p.subrange(i + 1, j)).len()
+                && count_c(sub_alt(p, i, j, k), '{') < count_c(p, '{') && csh_has(sub_alt(p, i, j, k), e)
+        }
+    }
+}
+/// substituting an alternative of the first group of a balanced text: balanced again, with fewer '{'
+pub proof fn lemma_sub_alt(p: Seq<char>, k: int)
+    requires balanced(p), first_index_of(p, '{') >= 0,
+        0 <= k < split_top(p.subrange(first_index_of(p, '{') + 1, seek(p, first_index_of(p, '{') + 1, 1, true))).len()
+    ensures ({
+        let i = first_index_of(p, '{');
+        let j = seek(p, i + 1, 1, true);
+        &&& balanced(sub_alt(p, i, j, k))
+        &&& count_c(sub_alt(p, i, j, k), '{') < count_c(p, '{')
+        &&& balanced(split_top(p.subrange(i + 1, j))[k])
+        &&& balanced(p.skip(j + 1))
+        &&& brace_free(p.take(i))
+    })
+{
+    let i = first_index_of(p, '{');
+    let j = seek(p, i + 1, 1, true);
+    lemma_balanced_struct(p);
+    lemma_first_index_of(p, '{');
+    let a = p.take(i);
+    let inner = p.subrange(i + 1, j);
+    let c = p.skip(j + 1);
+    let alt = split_top(inner)[k];
+    lemma_alts_balanced(inner);
+    lemma_alts_count(inner);
+    lemma_balanced_plain(a);
+    lemma_balanced_concat(a, alt);
+    lemma_balanced_concat(a + alt, c);
+    // counting '{'
+    let open = seq![p[i]];
+    let close = seq![p[j]];
+    assert(p =~= a + open + inner + close + c);
+    lemma_count_concat(a, open, '{');
+    lemma_count_concat(a + open, inner, '{');
+    lemma_count_concat(a + open + inner, close, '{');
+    lemma_count_concat(a + open + inner + close, c, '{');
+    lemma_count_concat(a, alt, '{');
+    lemma_count_concat(a + alt, c, '{');
+    assert(count_c(open, '{') == 1) by { reveal_with_fuel(count_c, 2); assert(open.drop_last() =~= Seq::<char>::empty()); }
+}
+/// one substitution step preserves the denotation, in both directions
+pub proof fn lemma_step_fwd(p: Seq<char>, k: int, e: Seq<char>)
+    requires balanced(p), first_index_of(p, '{') >= 0,
+        0 <= k < split_top(p.subrange(first_index_of(p, '{') + 1, seek(p, first_index_of(p, '{') + 1, 1, true))).len(),
+        dhas(sub_alt(p, first_index_of(p, '{'), seek(p, first_index_of(p, '{') + 1, 1, true), k), e)
+    ensures dhas(p, e)
+{
+    let i = first_index_of(p, '{');
+    let j = seek(p, i + 1, 1, true);
+    lemma_sub_alt(p, k);
+    lemma_balanced_struct(p);
+    let a = p.take(i);
+    let c = p.skip(j + 1);
+    let alt = split_top(p.subrange(i + 1, j))[k];
+    let q = sub_alt(p, i, j, k);
+    assert(q =~= a + (alt + c));
+    lemma_dhas_prefix(a, alt + c, e);
+    lemma_dhas_concat_fwd(alt, c, e.skip(i));
+    let m2 = choose|m: int| #[trigger] wit2(m) && 0 <= m <= e.skip(i).len() && dhas(alt, e.skip(i).take(m)) && dhas(c, e.skip(i).skip(m));
+    assert(e.skip(i).take(m2) =~= e.subrange(i, i + m2));
+    assert(e.skip(i).skip(m2) =~= e.skip(i + m2));
+    lemma_alt_shorter(p, i, j, k);
+    lemma_dhas_unfold(p, e);
+    assert(wit(k, i + m2) && dstep(p, e, i, j, k, i + m2));
+}
+pub proof fn lemma_step_bwd(p: Seq<char>, k: int, m: int, e: Seq<char>)
+    requires balanced(p), first_index_of(p, '{') >= 0, e.len() >= first_index_of(p, '{'),
+        e.take(first_index_of(p, '{')) == p.take(first_index_of(p, '{')),
+        dstep(p, e, first_index_of(p, '{'), seek(p, first_index_of(p, '{') + 1, 1, true), k, m)
+    ensures dhas(sub_alt(p, first_index_of(p, '{'), seek(p, first_index_of(p, '{') + 1, 1, true), k), e)
+{
+    let i = first_index_of(p, '{');
+    let j = seek(p, i + 1, 1, true);
+    lemma_sub_alt(p, k);
+    lemma_balanced_struct(p);
+    let a = p.take(i);
+    let c = p.skip(j + 1);
+    let alt = split_top(p.subrange(i + 1, j))[k];
+    let q = sub_alt(p, i, j, k);
+    assert(e.skip(i).take(m - i) =~= e.subrange(i, m));
+    assert(e.skip(i).skip(m - i) =~= e.skip(m));
+    lemma_dhas_concat_bwd(alt, c, e.skip(i), m - i);
+    assert(q =~= a + (alt + c));
+    lemma_dhas_prefix(a, alt + c, e);
+}
+/// C04, the two readings of "csh-style brace expansion" coincide on balanced patterns: the left-to-right substitution process
+/// reaches exactly the strings of the denotation dhas
+pub proof fn theorem_csh(p: Seq<char>, e: Seq<char>)
+    requires balanced(p)
+    ensures csh_has(p, e) <==> dhas(p, e)
+    decreases count_c(p, '{')
+{
+    let i = first_index_of(p, '{');
+    lemma_first_index_of(p, '{');
+    if i >= 0 {
+        lemma_balanced_struct(p);
+        let j = seek(p, i + 1, 1, true);
+        let alts = split_top(p.subrange(i + 1, j));
+        if csh_has(p, e) {
+            let k = choose|k: int| #[trigger] wit1(k) && 0 <= k < alts.len() && count_c(sub_alt(p, i, j, k), '{') < count_c(p, '{') && csh_has(sub_alt(p, i, j, k), e);
+            lemma_sub_alt(p, k);
+            theorem_csh(sub_alt(p, i, j, k), e);
+            lemma_step_fwd(p, k, e);
+        }
+        if dhas(p, e) {
+            lemma_dhas_unfold(p, e);
+            let (k, m) = choose|k: int, m: int| #[trigger] wit(k, m) && dstep(p, e, i, j, k, m);
+            lemma_sub_alt(p, k);
+            lemma_step_bwd(p, k, m, e);
+            theorem_csh(sub_alt(p, i, j, k), e);
+            assert(wit1(k));
+        }
+    }
+}
+/// C04 in the operational reading: a balanced brace pattern matches a name exactly when one of the strings the left-to-right csh
+/// substitution process ends in matches it as a pattern in its own right
+pub proof fn theorem_c04_csh(p: Seq<char>, name: Seq<char>)
+    requires balanced(p), is_brace_pat(p)
+    ensures pmatch(p, name) <==> (exists|e: Seq<char>| #[trigger] csh_has(p, e) && pmatch(e, name))
+{
+    theorem_expansion(p, name);
+    if pmatch(p, name) {
+        let e = choose|e: Seq<char>| #[trigger] dhas(p, e) && pmatch(e, name);
+        theorem_csh(p, e);
+    }
+    if exists|e: Seq<char>| #[trigger] csh_has(p, e) && pmatch(e, name) {
+        let e = choose|e: Seq<char>| #[trigger] csh_has(p, e) && pmatch(e, name);
+        theorem_csh(p, e);
+    }
+}
